@@ -13,33 +13,6 @@ open Scc
 
 variable {G : Fun.Term → Prop} {q : Core.Prog} {p : Fun.CheckedProgram}
 
-/-- terms whose suspension (by-name argument / binding) is their value: variables and `new` -/
-def pureS : Fun.Term → Bool
-  | .var .. => true
-  | .new .. => true
-  | .paren t => pureS t
-  | _ => false
-
-mutual
-  /-- pure terms: variables, literals, `+ - *`, constructors, `new` (clauses accepted by `gc`),
-  parentheses; an argument of codata type is a variable or a `new` -/
-  def pureFO (p : Fun.CheckedProgram) (gc : Fun.Clauses → Bool) : Fun.Term → Bool
-    | .var .. => true
-    | .lit _ => true
-    | .op a o b => o != .div && o != .rem && pureFO p gc a && pureFO p gc b
-    | .ctor _ as _ => pureFOs p gc as
-    | .new cs _ => gc cs
-    | .paren t => pureFO p gc t
-    | _ => false
-  def pureFOs (p : Fun.CheckedProgram) (gc : Fun.Clauses → Bool) : Fun.Terms → Bool
-    | .nil => true
-    | .cons t r =>
-      pureFO p gc t &&
-      (match t.getType with
-        | some ty => !Fun.isCodataTy p ty || pureS t
-        | none => true) && pureFOs p gc r
-end
-
 theorem getType_eq : ∀ t : Fun.Term, getType t = t.getType
   | .var .. => rfl
   | .lit _ => rfl
@@ -87,12 +60,12 @@ theorem PEval.imp {A ρ n} {Φ Ψ : CVal → Prop} (h : PEval q A ρ n Φ) (hi :
   obtain ⟨i, ρ', n', A', V, a1, a2, a3, a4, a5, a6⟩ := h c cty out hc
   exact ⟨i, ρ', n', A', V, a1, a2, a3, a4, a5, hi V a6⟩
 
-theorem VRel.int_inv {m : Nat} {x : BitVec 64} {V : CVal} (h : VRel G q m (.int x) V) : V = .int x := by
+theorem VRel.int_inv {m : Nat} {x : BitVec 64} {V : CVal} (h : VRel G p q m (.int x) V) : V = .int x := by
   cases h; rfl
 
 theorem EnvRel.sigExt {m n : Nat} {xs : List String} {env : Fun.Env} {ρ ρ' : CEnv}
-    (h : EnvRel G q m xs env ρ) (he : SigExt n ρ ρ') (hs : ∀ y ∈ xs, y ≠ sig) :
-    EnvRel G q m xs env ρ' :=
+    (h : EnvRel G p q m xs env ρ) (he : SigExt n ρ ρ') (hs : ∀ y ∈ xs, y ≠ sig) :
+    EnvRel G p q m xs env ρ' :=
   h.agree fun y hy => he.lookup ⟨y, 0⟩ (fun e => absurd e (hs y hy))
 
 /-- the value of a suspended variable / `new` is its value as a pure term -/
@@ -121,9 +94,9 @@ theorem suspend_pure : ∀ (t : Fun.Term) (env : Fun.Env), pureS t = true →
 
 /-- the ideal environment of an extension of the actual environment by machine-fresh names -/
 theorem ideal_sigExt {m n : Nat} {xs : List String} {env : Fun.Env} {ρ0 ρ ρ' : CEnv}
-    {bs : List Core.Binding} (he : EnvRel G q m xs env ρ0) (hbd : BoundOn bs ρ0)
+    {bs : List Core.Binding} (he : EnvRel G p q m xs env ρ0) (hbd : BoundOn bs ρ0)
     (hag : AgreeOn bs ρ0 ρ) (hext : SigExt n ρ ρ') (hs : ∀ y ∈ xs, y ≠ sig) :
-    ∃ ρ0', EnvRel G q m xs env ρ0' ∧ BoundOn bs ρ0' ∧ AgreeOn bs ρ0' ρ' := by
+    ∃ ρ0', EnvRel G p q m xs env ρ0' ∧ BoundOn bs ρ0' ∧ AgreeOn bs ρ0' ρ' := by
   obtain ⟨ρ0', hext0, hag'⟩ := hext.agree (ρ0 := ρ0)
   exact ⟨ρ0', he.sigExt hext0 hs, hbd.sigExt hext0, hag' _ hag⟩
 
@@ -139,8 +112,8 @@ mutual
       ∀ (t : Fun.Term), pureFO p gc t = true → ∀ (env : Fun.Env) (v : Fun.Value) (ty : Core.Ty)
         (st : CompileState) (P : Core.Term) (st' : CompileState) (m : Nat) (ρ0 ρ : CEnv) (n : Nat),
         compile t ty st = .ok (P, st') → StOK q st' → TermNames t st → pureVal p t env = some v →
-        EnvRel G q m (fv t) env ρ0 → BoundOn (tfvTerm P []) ρ0 → AgreeOn (tfvTerm P []) ρ0 ρ →
-        PVal q P ρ n (VRel G q m v)
+        EnvRel G p q m (fv t) env ρ0 → BoundOn (tfvTerm P []) ρ0 → AgreeOn (tfvTerm P []) ρ0 ρ →
+        PVal q P ρ n (VRel G p q m v)
     | .var x vty chi, _, env, v, ty, st, P, st', m, ρ0, ρ, n, hc, _, htn, hv, he, _, hag => by
       rw [c_var] at hc
       cases vty with
@@ -164,7 +137,7 @@ mutual
       obtain ⟨rfl, _⟩ := hc
       simp only [pureVal, Option.some.injEq] at hv
       subst hv
-      have hev : ∀ n0, PEval q (.lit k) ρ n0 (VRel G q m (.int (BitVec.ofInt 64 k))) := by
+      have hev : ∀ n0, PEval q (.lit k) ρ n0 (VRel G p q m (.int (BitVec.ofInt 64 k))) := by
         intro n0 c cty out hc
         exact ⟨0, ρ, n0, .lit k, .int (BitVec.ofInt 64 k), .refl _, Nat.le_refl _, .refl _ _, rfl, rfl,
           .int _ _⟩
@@ -207,8 +180,8 @@ mutual
                       (fun y hy => by simp [binderNames, hy]) (fs_stepRel.refl st)
                     have tnb : TermNames b st1 := htn.of_sub (fun y hy => by simp [fv, hy])
                       (fun y hy => by simp [binderNames, hy]) fa
-                    have hea : EnvRel G q m (fv a) env ρ0 := he.sub fun y hy => by simp [fv, hy]
-                    have heb : EnvRel G q m (fv b) env ρ0 := he.sub fun y hy => by simp [fv, hy]
+                    have hea : EnvRel G p q m (fv a) env ρ0 := he.sub fun y hy => by simp [fv, hy]
+                    have heb : EnvRel G p q m (fv b) env ρ0 := he.sub fun y hy => by simp [fv, hy]
                     have hbdA : BoundOn (tfvTerm A []) ρ0 := hbd.mono fun y hy => mem_tfv_op.2 (.inl hy)
                     have hbdB : BoundOn (tfvTerm B []) ρ0 := hbd.mono fun y hy => mem_tfv_op.2 (.inr hy)
                     have hagA : AgreeOn (tfvTerm A []) ρ0 ρ := hag.mono fun y hy => mem_tfv_op.2 (.inl hy)
@@ -221,7 +194,7 @@ mutual
                         obtain ⟨ρ0', he', hbd', hag'⟩ := ideal_sigExt heb hbdB hagB hext tnb.fv_ne_sig
                         exact (core_pure b hpf.2 env _ _ st1 B st2 m ρ0' ρ' n' hcb hst tnb hb
                           he' hbd' hag').imp fun V h => h.int_inv
-                    have hev : ∀ n0, PEval q (.op A (compileOp o) B) ρ n0 (VRel G q m (.int r)) :=
+                    have hev : ∀ n0, PEval q (.op A (compileOp o) B) ρ n0 (VRel G p q m (.int r)) :=
                       fun n0 => (peval_op (hA n0) (hB n0) har).imp fun V h => by
                         rw [show V = .int r from h]; exact .int _ _
                     exact ⟨fun pc z ty' e => (by cases e), fun _ => ⟨hev n, hev (n + 1)⟩⟩
@@ -242,7 +215,7 @@ mutual
           simp only [pureVal, Option.map_eq_some_iff] at hv
           obtain ⟨vs, hvs, rfl⟩ := hv
           have hev : ∀ n0, PEval q (.xtor .prd ⟨K, 0⟩ as' (compileTy τ)) ρ n0
-              (VRel G q m (.con K vs)) := by
+              (VRel G p q m (.con K vs)) := by
             intro n0 c cty out hc
             obtain ⟨i, ρ', n', as'', Vs, h1, h2, h3, h4, _, h6, h7⟩ :=
               core_args args hpf (fun as => .cut cty (.xtor .prd ⟨K, 0⟩ as (compileTy τ)) c)
@@ -271,12 +244,12 @@ mutual
           obtain ⟨rfl, rfl⟩ := hc
           simp only [pureVal, Option.some.injEq] at hv
           subst hv
-          have hvr : VRel G q m (.obj cs env) (.cocase ρ cs') :=
+          have hvr : VRel G p q m (.obj cs env) (.cocase ρ cs') :=
             .obj (hgc cs hpf)
               ⟨st, st1, hcc, hst, ⟨by simpa [fv] using htn.fv, by simpa [binderNames] using htn.bd,
                 htn.nosig⟩⟩
               (by simpa [fv] using he) (by simpa [tfvTerm] using hbd) (by simpa [tfvTerm] using hag)
-          have hev : ∀ n0, PEval q (.xcase .prd (compileTy τ) cs') ρ n0 (VRel G q m (.obj cs env)) := by
+          have hev : ∀ n0, PEval q (.xcase .prd (compileTy τ) cs') ρ n0 (VRel G p q m (.obj cs env)) := by
             intro n0 c cty out hc
             exact ⟨0, ρ, n0, _, .cocase ρ cs', .refl _, Nat.le_refl _, .refl _ _, rfl, rfl, hvr⟩
           exact ⟨fun pc z ty' e => (by cases e), fun _ => ⟨hev n, hev (n + 1)⟩⟩
@@ -305,12 +278,12 @@ mutual
         (pre : Core.Args) (Vpre : List CVal),
         compileSubst args st = .ok (as', st') → StOK q st' → ArgsNames args st →
         pureArgs p args env = some vs →
-        EnvRel G q m (fvArgs args) env ρ0 → BoundOn (tfvArgs as' []) ρ0 → AgreeOn (tfvArgs as' []) ρ0 ρ →
+        EnvRel G p q m (fvArgs args) env ρ0 → BoundOn (tfvArgs as' []) ρ0 → AgreeOn (tfvArgs as' []) ρ0 ρ →
         argsAllVar pre = true → argsSigBelow n pre → Core.argVals ρ pre = .ok Vpre →
         ∃ i ρ' n' as'' Vs, CSteps q ⟨Sc (appArgs pre (appArgs as' tail)), ρ, out, n⟩
             ⟨Sc (appArgs (appArgs pre as'') tail), ρ', out, n'⟩ i ∧ n ≤ n' ∧ SigExt n ρ ρ' ∧
           argsAllVar as'' = true ∧ argsSigBelow n' (appArgs pre as'') ∧
-          Core.argVals ρ' (appArgs pre as'') = .ok (Vpre ++ Vs) ∧ VRelL G q m vs Vs
+          Core.argVals ρ' (appArgs pre as'') = .ok (Vpre ++ Vs) ∧ VRelL G p q m vs Vs
     | .nil, _, Sc, _, tail, env, vs, st, as', st', m, ρ0, ρ, n, out, pre, Vpre, hc, _, _, hv, _, _, _,
         hpre, hsb, hpv => by
       rw [subst_nil] at hc
@@ -336,7 +309,7 @@ mutual
         | some vr =>
           simp only [hav, hvr, Option.some.injEq] at hv
           subst hv
-          have her : EnvRel G q m (fvArgs rest) env ρ0 := he.sub fun y hy => by simp [fvArgs, hy]
+          have her : EnvRel G p q m (fvArgs rest) env ρ0 := he.sub fun y hy => by simp [fvArgs, hy]
           cases hcv : covarArg t with
           | some xt =>
             obtain ⟨x, oty⟩ := xt
@@ -420,7 +393,7 @@ mutual
                   have tnr : ArgsNames rest st1 :=
                     ⟨fun y hy => ft.sub y (htn.fv y (by simp [fvArgs, hy])),
                       fun y hy => ft.sub y (htn.bd y (by simp [binderNamesArgs, hy])), ft.2 htn.nosig⟩
-                  have het : EnvRel G q m (fv t) env ρ0 := he.sub fun y hy => by simp [fvArgs, hy]
+                  have het : EnvRel G p q m (fv t) env ρ0 := he.sub fun y hy => by simp [fvArgs, hy]
                   have hP := core_pure t hpt env v1 _ st P st1 m ρ0 ρ n hct hst1 tnt hpv1 het
                     (hbd.mono fun y hy => mem_tfv_args_cons.2 (.inl hy))
                     (hag.mono fun y hy => mem_tfv_args_cons.2 (.inl hy))
